@@ -56,7 +56,7 @@ func psimSteps(code []byte) int64 {
 // GenC01: exhaustive single-instruction sweep + random programs + memory / sbrk programs.
 func GenC01(r *h.Rng, tier string, emit func(string)) {
 	st := h.Stats{}
-	np, nrand, nmem, nsbrk := 3, 30000, 8000, 3000
+	np, nrand, nmem, nsbrk := 3, 25000, 8000, 3000
 	if tier == "thorough" {
 		np, nrand, nmem, nsbrk = 16, 600000, 200000, 60000
 	}
@@ -87,7 +87,7 @@ func GenC01(r *h.Rng, tier string, emit func(string)) {
 // GenC04: every gas limit 0..steps+1 for random programs; Psi_M with limits up to and over 2^63.
 func GenC04(r *h.Rng, tier string, emit func(string)) {
 	st := h.Stats{}
-	nprog := 2500
+	nprog := 5000
 	if tier == "thorough" {
 		nprog = 60000
 	}
